@@ -1,4 +1,108 @@
 ---- MODULE CfdpProps ----
+(***************************************************************************)
+(* The listed properties as monitors over OBSERVED executions: a trace T   *)
+(* recorded by harness/world.py (public API calls of the real handlers     *)
+(* with their arguments, clock, return values, exceptions, emitted PDUs,   *)
+(* indications, fault callbacks, public state and sandbox snapshots).      *)
+(* Monitors read observables only; they never consult the transducers      *)
+(* SrcCore/DstCore, so a wrong transducer cannot hide a wrong handler.     *)
+(* Each monitor demands no more than the statement of its property; the    *)
+(* readings of ambiguous statements are recorded in DESIGN.md section 6.   *)
+(*                                                                         *)
+(* T.props lists the properties whose premises the driver established for  *)
+(* this execution (e.g. "C02": fault-free link).  Violations(T) is a set   *)
+(* of records [prop, clause, at, kf, d1, d2]: at = index of the event,     *)
+(* kf = signatures of known findings observed in the trace, d1/d2 detail.  *)
+(***************************************************************************)
 EXTENDS Naturals, Integers, Sequences, FiniteSets, SequencesExt, Checksum, PduLayout
-Violations(T) == {}
+
+PMin(a, b) == IF a < b THEN a ELSE b
+PMax(a, b) == IF a > b THEN a ELSE b
+Has(T, p) == \E i \in DOMAIN T.props : T.props[i] = p
+V(p, clause, at, kf, d1, d2) == [prop |-> p, clause |-> clause, at |-> at, kf |-> kf, d1 |-> d1, d2 |-> d2]
+Calls(T) == { i \in DOMAIN T.ev : T.ev[i].side # "E" }
+OfSide(T, s) == { i \in DOMAIN T.ev : T.ev[i].side = s }
+LastIdx(S) == CHOOSE i \in S : \A j \in S : j <= i
+\* all indications / fault callbacks of one side, in order
+IndsOf(T, s) == FoldLeft(LAMBDA acc, e : IF e.side = s THEN acc \o e.ind ELSE acc, <<>>, T.ev)
+FinOf(q) == SelectSeq(q, LAMBDA i : i.k = "finished")
+Succ(f) == f.cond = "NO_ERROR" /\ f.deliv = "DATA_COMPLETE" /\ f.fstat = "FILE_RETAINED"
+GoodFin(f) == f.cond = "NO_ERROR" /\ f.deliv = "DATA_COMPLETE"
+EffModeT(T) == IF T.cfg.putMode = "none" THEN T.cfg.mode ELSE T.cfg.putMode
+EffClosureT(T) == IF T.cfg.putClosure = "none" THEN T.cfg.closure ELSE T.cfg.putClosure = "true"
+MinLimit(T) == PMin(T.cfg.ackLim, PMin(T.cfg.nakLim, T.cfg.chkLim))
+
+\* ---- the destination sandbox ----
+DstPathT(T) == IF T.cfg.dstShape \in {"dir", "direxisting"} THEN "d/" \o T.cfg.dstName \o "/" \o T.cfg.srcName
+               ELSE "d/" \o T.cfg.dstName
+FileSame(fs, path, data) == \E j \in DOMAIN fs : fs[j].p = path /\ ~fs[j].dir /\ fs[j].d = data
+FileCollides(fs, path, data, chk) ==
+  \E j \in DOMAIN fs : /\ fs[j].p = path /\ ~fs[j].dir /\ fs[j].d # data
+                       /\ FileChecksum(chk, fs[j].d, Len(fs[j].d)) = FileChecksum(chk, data, Len(data))
+
+\* ---- signatures of known findings observed in a trace (known_findings.json) ----
+\* F01: an EOF PDU delivered to a receiver that already accepted the EOF of its running acknowledged transaction is
+\*      not answered with an ACK (EOF)
+EofSeenBefore(T, i) == \E j \in 1..(i - 1) : /\ T.ev[j].side = "D" /\ T.ev[j].call = "fsm" /\ T.ev[j].arg.t = "EOF"
+                                              /\ T.ev[j].exc = "none" /\ T.ev[j].post.tseq = T.ev[i].pre.tseq
+SigF01(T) == \E i \in OfSide(T, "D") : LET e == T.ev[i] IN
+               /\ e.call = "fsm" /\ e.arg.t = "EOF" /\ e.arg.h.mode = "ACK" /\ e.pre.state = "BUSY" /\ EofSeenBefore(T, i)
+               /\ ~\E k \in DOMAIN e.out : e.out[k].t = "ACK" /\ e.out[k].acked = "EOF"
+Kf(T) == IF SigF01(T) THEN "F01" ELSE "none"
+
+\* ===== C01: a reported success implies a byte-identical file (or a genuine checksum collision) =====
+ReportsSuccess(e) == \/ \E j \in DOMAIN e.ind : e.ind[j].k = "finished" /\ Succ(e.ind[j])
+                     \/ (e.side = "D" /\ \E j \in DOMAIN e.out : e.out[j].t = "FIN" /\ Succ(e.out[j]))
+C01(T) ==
+  IF ~Has(T, "C01") \/ T.cfg.mdOnly THEN {} ELSE
+  { V("C01", "success-reported-with-different-file", i, Kf(T), T.ev[i].side, "") :
+      i \in { i \in Calls(T) : /\ ReportsSuccess(T.ev[i])
+                               /\ ~FileSame(T.ev[i].fs, DstPathT(T), T.cfg.file)
+                               /\ ~FileCollides(T.ev[i].fs, DstPathT(T), T.cfg.file, T.cfg.chk) } }
+
+\* ===== the outcome C02 and C03 demand once the link is quiet =====
+EndClauses(T) ==
+  LET fs == FinOf(IndsOf(T, "S"))
+      fd == FinOf(IndsOf(T, "D"))
+      lastFs == T.ev[LastIdx(Calls(T))].fs IN
+  (IF ~T.done THEN {"handlers-not-idle-at-the-end"} ELSE {})
+  \cup (IF T.cfg.indS.finished /\ ~(Len(fs) = 1 /\ GoodFin(fs[1])) THEN {"sender-not-exactly-one-successful-finished-indication"} ELSE {})
+  \cup (IF T.cfg.indD.finished /\ ~(Len(fd) = 1 /\ GoodFin(fd[1])) THEN {"receiver-not-exactly-one-successful-finished-indication"} ELSE {})
+  \cup (IF ~T.cfg.mdOnly /\ ~FileSame(lastFs, DstPathT(T), T.cfg.file) THEN {"destination-file-differs"} ELSE {})
+\* ===== C02: every transfer over a fault-free link completes successfully =====
+C02(T) ==
+  IF ~Has(T, "C02") \/ T.nfaults # 0 THEN {} ELSE
+  { V("C02", c, Len(T.ev), Kf(T), "", "") : c \in EndClauses(T) }
+  \cup { V("C02", "api-call-raised", i, Kf(T), T.ev[i].exc, T.ev[i].excw) : i \in { i \in Calls(T) : T.ev[i].exc # "none" } }
+  \cup { V("C02", "fault-callback-fired", i, Kf(T), T.ev[i].flt[1].cond, T.ev[i].flt[1].k) : i \in { i \in Calls(T) : T.ev[i].flt # <<>> } }
+\* ===== C03: acknowledged mode recovers from at most K faults when every limit exceeds K =====
+C03(T) ==
+  IF ~Has(T, "C03") \/ EffModeT(T) # "ACK" \/ T.nfaults >= MinLimit(T) THEN {} ELSE
+  { V("C03", c, Len(T.ev), Kf(T), "", "") : c \in EndClauses(T) }
+
+\* ===== C10: only protocol exceptions, only when the caller is at fault =====
+ProtocolExc == {"NoRemoteEntityCfgFound", "FsmNotCalledAfterPacketInsertion", "SourceFileDoesNotExist", "ChecksumNotImplemented",
+                "UnretrievedPdusToBeSent", "InvalidNakPdu", "InvalidPduDirection", "InvalidSourceId", "InvalidDestinationId",
+                "InvalidTransactionSeqNum", "BusyError", "InvalidPduForSourceHandler", "PduIgnoredForSource",
+                "InvalidPduForDestHandler", "PduIgnoredForDest"}
+AdmissionExc == {"NoRemoteEntityCfgFound", "InvalidPduDirection", "InvalidSourceId", "InvalidDestinationId",
+                 "InvalidTransactionSeqNum", "InvalidPduForSourceHandler", "PduIgnoredForSource", "InvalidPduForDestHandler",
+                 "PduIgnoredForDest"}
+\* the destination sandbox before event i: the snapshot of the previous destination-side event (or the initial one)
+FsBefore(T, i) == LET prev == { j \in 1..(i - 1) : T.ev[j].side = "D" } IN
+                  IF prev = {} THEN T.fs0 ELSE T.ev[LastIdx(prev)].fs
+C10(T) ==
+  IF ~Has(T, "C10") THEN {} ELSE
+  { V("C10", "internal-error-leaked", i, Kf(T), T.ev[i].exc, T.ev[i].excw) :
+      i \in { i \in Calls(T) : T.ev[i].exc \notin (ProtocolExc \cup {"none"}) } }
+  \cup { V("C10", "unretrieved-pdus-error-with-empty-queue", i, Kf(T), T.ev[i].exc, T.ev[i].excw) :
+      i \in { i \in Calls(T) : T.ev[i].exc = "UnretrievedPdusToBeSent" /\ T.ev[i].pre.nready = 0 } }
+  \cup { V("C10", "rejected-pdu-changed-state", i, Kf(T), T.ev[i].exc, T.ev[i].excw) :
+      i \in { i \in Calls(T) : LET e == T.ev[i] IN
+                /\ e.call = "fsm" /\ e.arg.t # "none" /\ e.exc \in AdmissionExc
+                /\ \/ [e.post EXCEPT !.nready = e.pre.nready] # e.pre
+                   \/ e.pre.nready # e.post.nready + Len(e.out)
+                   \/ (e.side = "D" /\ ToSet(e.fs) # ToSet(FsBefore(T, i))) } }
+
+Violations(T) == C01(T) \cup C02(T) \cup C03(T) \cup C10(T)
 ====
